@@ -2050,6 +2050,173 @@ impl<'a, const C: usize, const R: usize, T: 'a + Copy + std::fmt::Debug> Layout<
     }
 }
 
+// Read-only views for the verification harness. Compiled only with `--cfg jtroo_kanata_verif`.
+#[cfg(jtroo_kanata_verif)]
+impl<'a> QueuedIter<'a> {
+    /// Build a `QueuedIter` over an externally constructed queue, so that a
+    /// `HoldTapConfig::Custom` closure can be probed from outside this crate.
+    pub fn verif_new(it: arraydeque::Iter<'a, Queued>) -> Self {
+        QueuedIter(it)
+    }
+}
+
+#[cfg(jtroo_kanata_verif)]
+impl<'a, const C: usize, const R: usize, T: 'a + Copy + std::fmt::Debug> Layout<'a, C, R, T> {
+    /// Canonical rendering of the private run-time state, for state-level comparison with a model.
+    pub fn verif_digest(&self) -> String {
+        use std::fmt::Write;
+        let mut o = String::new();
+        let _ = write!(o, "dl={};st=[", self.default_layer);
+        for (i, s) in self.states.iter().enumerate() {
+            if i > 0 {
+                o.push(',');
+            }
+            match s {
+                NormalKey {
+                    keycode,
+                    coord,
+                    flags,
+                } => {
+                    let _ = write!(o, "N{}.{}.{}.{}", *keycode as u16, coord.0, coord.1, flags.0);
+                }
+                LayerModifier { value, coord } => {
+                    let _ = write!(o, "L{}.{}.{}", value, coord.0, coord.1);
+                }
+                Custom { coord, .. } => {
+                    let _ = write!(o, "C.{}.{}", coord.0, coord.1);
+                }
+                FakeKey { keycode } => {
+                    let _ = write!(o, "F{}", *keycode as u16);
+                }
+                RepeatingSequence { sequence, coord } => {
+                    let _ = write!(o, "R{}.{}.{}", sequence.len(), coord.0, coord.1);
+                }
+                SeqCustomPending(_) => o.push_str("SP"),
+                SeqCustomActive(_) => o.push_str("SA"),
+                Tombstone => o.push('T'),
+            }
+        }
+        o.push_str("];w=");
+        let wd = |o: &mut String, w: &WaitingState<'a, T>| {
+            let kind = match &w.config {
+                WaitingConfig::HoldTap(_) => "H".to_string(),
+                WaitingConfig::TapDance(t) => format!("T{}", t.num_taps),
+                WaitingConfig::Chord(_) => "C".to_string(),
+            };
+            let ls: std::vec::Vec<String> = w.layer_stack.iter().map(|l| l.to_string()).collect();
+            let _ = write!(
+                o,
+                "{}.{}/{}/{}/{}/{}/{}/{}",
+                w.coord.0,
+                w.coord.1,
+                w.timeout,
+                w.delay,
+                w.ticks,
+                w.prev_queue_len,
+                kind,
+                ls.join(".")
+            );
+        };
+        match &self.waiting {
+            Some(w) => wd(&mut o, w),
+            None => o.push('-'),
+        }
+        o.push_str(";ew=[");
+        for (i, w) in self.extra_waiting.iter().enumerate() {
+            if i > 0 {
+                o.push(',');
+            }
+            wd(&mut o, w);
+        }
+        o.push_str("];tde=");
+        match &self.tap_dance_eager {
+            Some(t) => {
+                let _ = write!(
+                    o,
+                    "{}.{}/{}/{}/{}",
+                    t.coord.0, t.coord.1, t.timeout, t.orig_timeout, t.num_taps
+                );
+            }
+            None => o.push('-'),
+        }
+        o.push_str(";q=[");
+        for (i, q) in self.queue.iter().enumerate() {
+            if i > 0 {
+                o.push(',');
+            }
+            match q.event {
+                Event::Press(r, y) => {
+                    let _ = write!(o, "p{}.{}@{}", r, y, q.since);
+                }
+                Event::Release(r, y) => {
+                    let _ = write!(o, "r{}.{}@{}", r, y, q.since);
+                }
+            }
+        }
+        o.push_str("];os=");
+        let cs = |v: &mut dyn Iterator<Item = &KCoord>| -> String {
+            let v: std::vec::Vec<String> = v.map(|c| format!("{}.{}", c.0, c.1)).collect();
+            v.join(",")
+        };
+        let os = &self.oneshot;
+        let _ = write!(
+            o,
+            "{}|{}|{}|{}|{}|{}|{}|{}|{}",
+            cs(&mut os.keys.iter()),
+            cs(&mut os.released_keys.iter()),
+            cs(&mut os.other_pressed_keys.iter()),
+            os.timeout,
+            match os.end_config {
+                OneShotEndConfig::EndOnFirstPress => 0,
+                OneShotEndConfig::EndOnFirstPressOrRepress => 1,
+                OneShotEndConfig::EndOnFirstRelease => 2,
+                OneShotEndConfig::EndOnFirstReleaseOrRepress => 3,
+            },
+            os.release_on_next_tick as u8,
+            os.pause_input_processing_delay,
+            os.pause_input_processing_ticks,
+            os.ticks_to_ignore_events
+        );
+        let _ = write!(
+            o,
+            ";lpt={}.{}/{}",
+            self.last_press_tracker.coord.0,
+            self.last_press_tracker.coord.1,
+            self.last_press_tracker.tap_hold_timeout
+        );
+        o.push_str(";as=[");
+        for (i, s) in self.active_sequences.iter().enumerate() {
+            if i > 0 {
+                o.push(',');
+            }
+            let _ = write!(
+                o,
+                "{}/{}/{}",
+                s.delay,
+                s.tapped.map(|k| (k as u16).to_string()).unwrap_or("-".into()),
+                s.remaining_events.len()
+            );
+        }
+        let _ = write!(o, "];aq={}", self.action_queue.len());
+        o.push_str(";hk=[");
+        for (i, h) in self.historical_keys.iter_hevents().enumerate() {
+            if i > 0 {
+                o.push(',');
+            }
+            let _ = write!(o, "{}@{}", h.event as u16, h.ticks_since_occurrence);
+        }
+        o.push_str("];hi=[");
+        for (i, h) in self.historical_inputs.iter_hevents().enumerate() {
+            if i > 0 {
+                o.push(',');
+            }
+            let _ = write!(o, "{}.{}@{}", h.event.0, h.event.1, h.ticks_since_occurrence);
+        }
+        o.push(']');
+        o
+    }
+}
+
 #[cfg(test)]
 mod test {
     extern crate std;
